@@ -244,6 +244,61 @@ func genC01Config(t *rapid.T) (json.RawMessage, *proto.File) {
 		if rapid.Bool().Draw(t, "jFileVars") {
 			cfg["IgnoreFileVars"] = []map[string]interface{}{{"File": "main.lua", "Vars": []string{"G1", "x"}}}
 		}
+		// the rest of the documented schema, with usual and unusual values
+		strs := func(label string, pool []string, max int) []string {
+			return rapid.SliceOfN(rapid.SampledFrom(pool), 0, max).Draw(t, label)
+		}
+		if rapid.Bool().Draw(t, "jWild") {
+			cfg["IgnoreWildcardModules"] = strs("jWildList", []string{"G*", "*", "", "g?un", "[", "**"}, 3)
+		}
+		if rapid.Bool().Draw(t, "jReadFiles") {
+			cfg["IgnoreReadFiles"] = strs("jReadList", []string{"main.lua", "nofile.lua", "sub/", ""}, 2)
+		}
+		if rapid.Bool().Draw(t, "jNoUse") {
+			cfg["IgnoreLocalNoUseVars"] = strs("jNoUseList", []string{"_", "a", "f0v1", ""}, 3)
+		}
+		if rapid.Bool().Draw(t, "jProto") {
+			cfg["ProtocolVars"] = strs("jProtoList", []string{"c2s", "s2s", "G1", "a", ""}, 3)
+			cfg["ProtocolPreIngoreFlag"] = rapid.IntRange(-1, 2).Draw(t, "jProtoFlag")
+		}
+		if rapid.Bool().Draw(t, "jFrame") {
+			n := rapid.IntRange(0, 3).Draw(t, "jFrameN")
+			var fr []map[string]interface{}
+			for i := 0; i < n; i++ {
+				fr = append(fr, map[string]interface{}{"Name": rapid.SampledFrom([]string{"import", "require", "dofile", "gfun", "print", ""}).Draw(t, "jFrameName"),
+					"type": rapid.IntRange(-1, 4).Draw(t, "jFrameType"), "SuffixFlag": rapid.IntRange(-1, 2).Draw(t, "jFrameSuffix")})
+			}
+			cfg["ReferFrameFiles"] = fr
+		}
+		if rapid.Bool().Draw(t, "jSep") {
+			cfg["PathSeparator"] = rapid.SampledFrom([]string{".", "/", "", "\\", "..", "ab"}).Draw(t, "jSepVal")
+		}
+		if rapid.Bool().Draw(t, "jAnn") {
+			n := rapid.IntRange(1, 3).Draw(t, "jAnnN")
+			var as []map[string]interface{}
+			for i := 0; i < n; i++ {
+				a := map[string]interface{}{"FuncName": rapid.SampledFrom([]string{"print", "pairs", "tostring", "type", "gfun", "G1", "G2", "require", "setmetatable", ""}).Draw(t, "jAnnFunc")}
+				if rapid.IntRange(0, 3).Draw(t, "jAnnHasIdx") > 0 {
+					a["ParamIndex"] = rapid.IntRange(-2, 4).Draw(t, "jAnnIdx")
+				}
+				if rapid.Bool().Draw(t, "jAnnSplit") {
+					a["SplitFlag"] = rapid.IntRange(-1, 2).Draw(t, "jAnnSplitV")
+				}
+				if rapid.Bool().Draw(t, "jAnnPre") {
+					a["PrefixStr"] = rapid.SampledFrom([]string{"", "Cls", "ui.", "."}).Draw(t, "jAnnPreV")
+					a["PrefixStrList"] = strs("jAnnPreList", []string{"", "Cls", "a.b", "."}, 2)
+					a["SuffixStr"] = rapid.SampledFrom([]string{"", "1", ".x"}).Draw(t, "jAnnSufV")
+				}
+				as = append(as, a)
+			}
+			cfg["AnntotateSets"] = as
+		}
+		if rapid.Bool().Draw(t, "jOther") {
+			cfg["OtherDir"] = rapid.SampledFrom([]string{"", "sub/", "sub", "nonexistent/", "./"}).Draw(t, "jOtherV")
+		}
+		if rapid.Bool().Draw(t, "jOpen") {
+			cfg["OpenErrorTypes"] = rapid.SliceOfN(rapid.IntRange(-1, 40), 0, 5).Draw(t, "jOpenTypes")
+		}
 		b, _ := json.Marshal(cfg)
 		return harness.J(harness.AllOn()), &proto.File{Path: "luahelper.json", Data: b}
 	default:
@@ -312,6 +367,34 @@ func genC01(t *rapid.T) C01Case {
 	c.InitOptions = opts
 	if cfgFile != nil {
 		c.Files = append(c.Files, *cfgFile)
+		// code that exercises what the configuration names: calls of the functions of AnntotateSets
+		// and ReferFrameFiles with their results used, members of protocol variables
+		var cfg struct {
+			AnntotateSets   []struct{ FuncName string }
+			ReferFrameFiles []struct{ Name string }
+			ProtocolVars    []string
+		}
+		if json.Unmarshal(cfgFile.Data, &cfg) == nil {
+			var b strings.Builder
+			for i, a := range cfg.AnntotateSets {
+				if reflua.IsName(a.FuncName) {
+					fmt.Fprintf(&b, "local annv%d = %s(\"Cls1\", \"Cls2\")\nprint(annv%d.x, annv%d)\n", i, a.FuncName, i, i)
+				}
+			}
+			for i, f := range cfg.ReferFrameFiles {
+				if reflua.IsName(f.Name) {
+					fmt.Fprintf(&b, "local frv%d = %s(\"util\")\nprint(frv%d.y)\n", i, f.Name, i)
+				}
+			}
+			for _, v := range cfg.ProtocolVars {
+				if reflua.IsName(v) {
+					fmt.Fprintf(&b, "print(%s.msg.field)\n%s.msg2 = 1\n", v, v)
+				}
+			}
+			if b.Len() > 0 {
+				c.Files[0].Data = append([]byte(b.String()), c.Files[0].Data...)
+			}
+		}
 	}
 	// client model: what the editor holds (text), per open document
 	type doc struct {
